@@ -184,7 +184,41 @@ def check(ctx):
 
         def map_ok(ctx, p, aps, okagg=okagg):
             return match(p.ret, Agg("Result::Ok", Agg(okagg, ok_of(aps[0]), ok_of(aps[1]))))
-        check_two_stage(ctx, f, "R14.3", "Map<%s>" % ty, [("f", lambda prev, e=elem(0): (lambda a: a == e), "MapError", (0,)), ("f", lambda prev, e=elem(1): (lambda a: a == e), "MapError", (1,))], map_ok)
+
+        def direct(c, f=f, ty=ty, elem=elem, map_ok=map_ok):
+            check_two_stage(c, f, "R14.3", "Map<%s>" % ty, [("f", lambda prev, e=elem(0): (lambda a: a == e), "MapError", (0,)), ("f", lambda prev, e=elem(1): (lambda a: a == e), "MapError", (1,))], map_ok)
+
+        def via_array_impl(c, f=f, ty=ty):
+            """the pair impl hands the pair, converted by std's `(T, T) -> [T; 2]` (component order kept), to the array impl
+            (checked above) and converts the Ok back with std's `[T; 2] -> (T, T)`; the array impl's error is returned as it is"""
+            from . import ckit as K
+            paths = K.live(c.cpaths(f))
+            arr = "<ec_core::operator::composable::map::Map<F> as " + OP % "[Input; 2]"
+            ok = ty == "(Input, Input)" and len(paths) == 2
+            seen = set()
+            for p in paths:
+                ap = K.calls_of(p, "Operator::apply")
+                okp = len(ap) == 1 and len(ap[0][3]) == 3 and K.strip(ap[0][3][0], calls=()) == ("param", 1) and rng_passthrough(ap[0][3][2], 3) and \
+                    callee_is(peel(ap[0][3][1], ()), "Into::into", "From::from") and peel(ap[0][3][1], ())[3][0] == ("param", 2) and \
+                    ((c.F.fns[ap[0][4][-2]].blocks[ap[0][4][-1]]["term"].get("res") or {}).get("def") == arr)
+                kind, pay = K.outcome(p)
+                if okp and K.discr_is(p, lambda o: o == ap[0], 0):
+                    v = peel(pay, ()) if pay is not None else None
+                    okp = kind == "ok" and v is not None and callee_is(v, "Into::into", "From::from") and K.strip(v[3][0], calls=()) == ("field", ap[0], 0, "Ok")
+                    seen.add("ok")
+                elif okp and K.discr_is(p, lambda o: o == ap[0], 1):
+                    okp = kind == "err" and K.conv_free(pay) == ("field", ap[0], 0, "Err") and pay == K.conv_free(pay)
+                    seen.add("err")
+                else:
+                    okp = False
+                ok = ok and okp
+            ok = ok and seen == {"ok", "err"}
+            for i in (0, 1):
+                c.check(ok, "R14.3", "Map<%s>/path%d/stages-in-order-on-right-inputs" % (ty, i), "forwards to the [Input; 2] impl: apply(self, pair.into(), rng) -> .into()", f.at(),
+                        bad_detail="neither two applies on .0 and .1 in order nor a forward of the whole pair to the [Input; 2] impl")
+            c.check(ok, "R14.3", "Map<%s>/has-success-and-early-exit-paths" % ty, "Ok converted back, Err of the array impl returned unchanged", f.at())
+        from . import ckit as _K4
+        _K4.either(ctx, direct, via_array_impl)
 
     def map_vec_collect(ctx):
         # ---------------- Map (Vec) -----------------------------------------------------
@@ -263,25 +297,78 @@ def check(ctx):
     _K3.either(ctx, map_vec_collect, map_vec_loop)
 
     # ---------------- RepeatWith -------------------------------------------------------
-    f = ctx.fn("<ec_core::operator::composable::repeat_with::RepeatWith<F, N> as " + OP % "Input")
-    ps = return_paths(ctx.paths(f))
-    okp = [p for p in ps if not is_err_return(p)]
-    erp = [p for p in ps if is_err_return(p)]
-    b = {}
-    coll = Bind("coll", Call("Iterator::collect", Call("Iterator::take", Call("iter::repeat_with", Bind("clo"), nargs=1), lambda n: n[0] == "const" and n[2].strip() in ("N", "const N"), nargs=2), nargs=1))
-    good = len(okp) == 1 and match(okp[0].ret, Agg("Result::Ok", Call("Result::unwrap_or_else", Call("TryInto::try_into", TryOk(coll), nargs=1), ANY, nargs=2)), b)
-    ctx.check(good, "R14.4", "RepeatWith/repeat_with.take(N).collect", short(okp[0].ret, 8) if okp else "-", f.at(),
-              bad_detail="expected Ok(try_into(ok(collect(take(repeat_with(closure), N)))).unwrap_or_else(..)); extracted " + "; ".join(short(p.ret, 10) for p in okp))
-    if good:
-        cps = closure_paths(ctx, b["clo"])
-        ok2 = bool(cps) and len(cps) == 1 and match(cps[0].ret, Call("Operator::apply", lambda a: derives_from_self(a, field="f"),
-                                                                      Call("Clone::clone", Through(Param(2)), nargs=1), lambda a: rng_passthrough(a, 3), nargs=3))
-        ctx.check(ok2, "R14.4", "RepeatWith/closure-applies-f-to-clone-of-input", short(cps[0].ret, 6) if cps else "-", f.at())
-        # result type of the collect is Result<Vec<_>,_>: early exit on first Err (std contract)
-        term = F.fns[b["coll"][4][-2]].blocks[b["coll"][4][-1]]["term"]
-        tys = [a.get("s", "") for a in term.get("targs", [])]
-        ctx.check(any(s.startswith("std::result::Result<std::vec::Vec<") for s in tys), "R14.4", "RepeatWith/collect-into-Result<Vec>", "; ".join(tys)[:200], f.at())
-    ctx.check(len(erp) == 1 and match(erp[0].ret, Call("FromResidual::from_residual", TryErr(ANY))), "R14.4", "RepeatWith/error-propagated", short(erp[0].ret, 6) if erp else "-", f.at())
+    repeat_shape = {"ok": False}
+
+    def repeat_collect(ctx):
+        f = ctx.fn("<ec_core::operator::composable::repeat_with::RepeatWith<F, N> as " + OP % "Input")
+        ps = return_paths(ctx.paths(f))
+        okp = [p for p in ps if not is_err_return(p)]
+        erp = [p for p in ps if is_err_return(p)]
+        b = {}
+        coll = Bind("coll", Call("Iterator::collect", Call("Iterator::take", Call("iter::repeat_with", Bind("clo"), nargs=1), lambda n: n[0] == "const" and n[2].strip() in ("N", "const N"), nargs=2), nargs=1))
+        good = len(okp) == 1 and match(okp[0].ret, Agg("Result::Ok", Call("Result::unwrap_or_else", Call("TryInto::try_into", TryOk(coll), nargs=1), ANY, nargs=2)), b)
+        ctx.check(good, "R14.4", "RepeatWith/repeat_with.take(N).collect", short(okp[0].ret, 8) if okp else "-", f.at(),
+                  bad_detail="expected Ok(try_into(ok(collect(take(repeat_with(closure), N)))).unwrap_or_else(..)); extracted " + "; ".join(short(p.ret, 10) for p in okp))
+        if good:
+            cps = closure_paths(ctx, b["clo"])
+            ok2 = bool(cps) and len(cps) == 1 and match(cps[0].ret, Call("Operator::apply", lambda a: derives_from_self(a, field="f"),
+                                                                          Call("Clone::clone", Through(Param(2)), nargs=1), lambda a: rng_passthrough(a, 3), nargs=3))
+            ctx.check(ok2, "R14.4", "RepeatWith/closure-applies-f-to-clone-of-input", short(cps[0].ret, 6) if cps else "-", f.at())
+            # result type of the collect is Result<Vec<_>,_>: early exit on first Err (std contract)
+            term = F.fns[b["coll"][4][-2]].blocks[b["coll"][4][-1]]["term"]
+            tys = [a.get("s", "") for a in term.get("targs", [])]
+            ctx.check(any(s.startswith("std::result::Result<std::vec::Vec<") for s in tys), "R14.4", "RepeatWith/collect-into-Result<Vec>", "; ".join(tys)[:200], f.at())
+            repeat_shape["ok"] = ok2 and any(s.startswith("std::result::Result<std::vec::Vec<") for s in tys)
+        ctx.check(len(erp) == 1 and match(erp[0].ret, Call("FromResidual::from_residual", TryErr(ANY))), "R14.4", "RepeatWith/error-propagated", short(erp[0].ret, 6) if erp else "-", f.at())
+
+
+    def repeat_loop(ctx):
+        """the same clauses for the explicit loop `for _ in 0..N { out.push(self.f.apply(input.clone(), rng)?) }` followed by the
+        conversion of the N collected outputs into [_; N]: N applies on clones of the input, first failure returned, outputs in order"""
+        from . import ckit as K
+        f = ctx.fn("<ec_core::operator::composable::repeat_with::RepeatWith<F, N> as " + OP % "Input")
+        paths = K.live(ctx.cpaths(f))
+        is_n = lambda n: n[0] == "const" and n[2].strip() in ("N", "const N")
+        is_nx = lambda c: callee_is(c, "Iterator::next") and (match(c[3][0], Through(Call("IntoIterator::into_iter", Agg("Range::Range", Const(0), is_n), nargs=1))) or match(c[3][0], Through(Agg("Range::Range", Const(0), is_n))))
+        is_out = lambda e: callee_is(K.strip(e, calls=()), "Vec::with_capacity", "Vec::new")
+        good, seen = bool(paths), set()
+        for p in paths:
+            nx = [c for c in p.calls() if is_nx(c)]
+            if len(nx) != 1 or len([c for c in p.calls() if callee_is(c, "Iterator::next")]) != 1:
+                good = False
+                continue
+            ap = K.calls_of(p, "Operator::apply")
+            push = K.calls_of(p, "Vec::push", "Extend::extend", "Vec::insert")
+            kind, pay = K.outcome(p)
+            if K.discr_is(p, lambda o: o == nx[0], 0):
+                conv = [c for c in p.calls() if callee_is(c, "TryInto::try_into", "TryFrom::try_from")]
+                okd = not ap and not push and len(conv) == 1 and is_out(conv[0][3][0])
+                if p.end == "return":
+                    okd = okd and kind == "ok" and K.strip(pay, calls=()) == ("field", conv[0], 0, "Ok")
+                    seen.add("done")
+                else:
+                    okd = okd and p.end == "diverge" and K.discr_is(p, lambda o: o == conv[0], 1)      # unreachable!: exactly N elements were pushed
+                good = good and okd
+                continue
+            ok1 = len(ap) == 1 and derives_from_self(ap[0][3][0], field="f") and match(ap[0][3][1], Call("Clone::clone", Through(Param(2)), nargs=1)) and rng_passthrough(ap[0][3][2], 3)
+            if ok1 and K.discr_is(p, lambda o: o == ap[0], 0):
+                good = good and p.end.startswith("loop:") and len(push) == 1 and callee_is(push[0], "Vec::push") and is_out(push[0][3][0]) and K.strip(push[0][3][1], calls=()) == ("field", ap[0], 0, "Ok")
+                seen.add("push")
+            elif ok1 and K.discr_is(p, lambda o: o == ap[0], 1):
+                good = good and kind == "err" and K.conv_free(pay) == ("field", ap[0], 0, "Err") and not push
+                seen.add("err")
+            else:
+                good = False
+        good = good and seen == {"done", "push", "err"}
+        ctx.check(good, "R14.4", "RepeatWith/repeat_with.take(N).collect", "explicit loop over 0..N: apply, push on Ok, return the first Err, convert the N outputs", f.at(),
+                  bad_detail="expected N applies of f to clones of the input (0..N), outputs collected in order, first failure returned")
+        ctx.check(good, "R14.4", "RepeatWith/closure-applies-f-to-clone-of-input", "f.apply(input.clone(), rng) once per iteration", f.at())
+        ctx.check(good, "R14.4", "RepeatWith/collect-into-Result<Vec>", "`?` inside the loop: the first Err leaves", f.at())
+        ctx.check(good, "R14.4", "RepeatWith/error-propagated", "the inner error is returned as it is", f.at())
+        repeat_shape["ok"] = good
+
+    from . import ckit as _K5
+    _K5.either(ctx, repeat_collect, repeat_loop)
 
     # ---------------- R14.5 same rng everywhere ------------------------------------------
     n = 0
@@ -371,7 +458,7 @@ def check(ctx):
     cg = CallGraph(F)
     roots = [x for x in fam]
     scope = set(roots)
-    discharge = [{"fn": "repeat_with::RepeatWith<F, N> as ec_core::operator::Operator<Input>>::apply::{closure#1}", "what": "panicking::panic_fmt",
-                  "reason": "unreachable!: the Vec collected from take(N) over an endless repeat_with has exactly N elements, so try_into::<[_; N]> succeeds",
-                  "guard": lambda c, s: (True, "take(N) shape verified by R14.4")}]
+    discharge = [{"fn": "repeat_with::RepeatWith<F, N> as ec_core::operator::Operator<Input>>::apply::{closure#", "what": "panicking::panic_fmt",
+                  "reason": "unreachable!: the Vec collected from take(N) over an endless repeat_with (or filled by N loop iterations) has exactly N elements, so try_into::<[_; N]> succeeds",
+                  "guard": lambda c, s: (repeat_shape["ok"], "N-element shape verified by R14.4")}]
     audit_panics(ctx, "R14.4", scope, discharge, floor=1)
